@@ -224,6 +224,15 @@ theorem lint_verif_only :
     Extracted.FiberSched.lintHitsVerifOnly =
       [("include/yaclib/fault/verif.hpp", 55, "pointer-to-integer-cast: std::uintptr_t")] := by decide
 
+/-- every clock name of `yaclib_std::chrono` is the virtual clock of the fiber scheduler in the FIBER configuration
+    (`SystemClock::now()` reads `Scheduler::GetTimeNs()`, tie `Sched_SystemClock_now`): a deadline `Clock::now() + d` of any of
+    them is a virtual deadline, and no real clock can enter through a clock name -/
+theorem clocks_are_virtual :
+    Extracted.FiberSched.clockAliases =
+      [("high_resolution_clock", "yaclib::detail::fiber::SystemClock"),
+       ("steady_clock", "yaclib::detail::fiber::SystemClock"),
+       ("system_clock", "yaclib::detail::fiber::SystemClock")] := by decide
+
 /-- the lint is not vacuous: it walked the scheduler, the injector, the engine, the clock and the TLS maps -/
 theorem lint_covers :
     ["src/fault/fiber/scheduler.cpp", "src/fault/injector.cpp", "src/fault/util.cpp", "src/fault/atomic.cpp",
